@@ -87,7 +87,7 @@ Inductive jperm : jvalue -> jvalue -> Prop :=
 (* ---- the plain serializer ---------------------------------------------------------- *)
 Definition emit_num (v : jvalue) : jres ustring :=
   match v with
-  | JInt z => match int_float_repr z with Some r => convert2es6 r | None => JRaise OutOfModel end
+  | JInt z => match int_float_repr z with Some r => convert2es6 r | None => int_too_big z end
   | JFloat r => convert2es6 r
   | _ => JRaise OutOfModel
   end.
